@@ -304,7 +304,7 @@ def process_matrix(shape, cards, names, envs) -> list:
             for k in ('LC_ALL', 'LANG', 'LC_CTYPE', 'PYTHONUTF8', 'PYTHONIOENCODING', 'PYTHONCOERCECLOCALE'):
                 e.pop(k, None)
             e.update(env)
-            e['PYTHONPATH'] = here
+            e['PYTHONPATH'] = (os.environ['FMV_REPO'] + os.pathsep + here) if os.environ.get('FMV_REPO') else here
             sub = os.path.join(d, 'p%d' % i)
             os.makedirs(sub)
             p = subprocess.run([sys.executable, '-c', CHILD, json.dumps(shape), json.dumps(cards), json.dumps(names), sub],
